@@ -1,5 +1,460 @@
 package main
 
-import "verifharness/internal/hx"
+import (
+	"bytes"
+	"crypto/ed25519"
+	"encoding/pem"
+	"errors"
+	"strings"
 
-func c11(c *hx.Ctx) { panic("todo") }
+	"github.com/aperturerobotics/bifrost/crypto"
+	"github.com/aperturerobotics/bifrost/keypem"
+	"github.com/aperturerobotics/bifrost/peer"
+	"github.com/aperturerobotics/bifrost/util/confparse"
+	b58 "github.com/mr-tron/base58/base58"
+	"verifharness/internal/hx"
+)
+
+func pemRes(b []byte) string {
+	blk, _ := pem.Decode(b)
+	if blk == nil {
+		return "None"
+	}
+	return "(Some (" + hx.Str(blk.Type) + ", " + hx.Bytes(blk.Bytes) + "))"
+}
+
+func rawPriv(k crypto.PrivKey) []byte {
+	if k == nil {
+		return nil
+	}
+	r, _ := k.Raw()
+	return r
+}
+
+func rawPub(k crypto.PubKey) []byte {
+	if k == nil {
+		return nil
+	}
+	r, _ := k.Raw()
+	return r
+}
+
+func optKey(present bool, raw []byte) string { return hx.Opt(present, hx.Bytes(raw)) }
+
+func keyErrClass(err error) int {
+	switch {
+	case errors.Is(err, crypto.ErrBadKeyType):
+		return 6
+	case errors.Is(err, keypem.ErrUnexpectedPemType):
+		return 32
+	}
+	return 0
+}
+
+// obsOptPriv renders (PrivKey, error) as obs (option bytes).
+func obsOptKey(p bool, present bool, raw []byte, err error) string {
+	switch {
+	case p:
+		return oPanic
+	case err != nil:
+		return oErr(keyErrClass(err))
+	default:
+		return oOk(optKey(present, raw))
+	}
+}
+
+// keypem parsers on dat; blank==true means the input is empty (nothing to decode).
+func c11Pem(c *hx.Ctx, dat []byte, class string) {
+	c.Class(class)
+	desc := map[string]any{"kind": "pem", "class": class, "bytes": hx.Hex(dat), "text": string(dat)}
+	pr := pemRes(dat)
+	// ParseKeyPem
+	{
+		var sk crypto.PrivKey
+		var pk crypto.PubKey
+		var err error
+		p, _ := hx.Catch(func() { sk, pk, err = keypem.ParseKeyPem(dat) })
+		var o string
+		switch {
+		case p:
+			o = oPanic
+			c.Failf("parsekeypem-panic", desc, "ParseKeyPem panicked")
+		case err != nil:
+			o = oErr(keyErrClass(err))
+		default:
+			o = oOk("(" + optKey(sk != nil, rawPriv(sk)) + ", " + optKey(pk != nil, rawPub(pk)) + ")")
+			if sk == nil && pk == nil {
+				c.Failf("keypem-no-key-no-error", desc, "ParseKeyPem returned neither a key nor an error")
+			}
+			if sk != nil && (pk == nil || !bytes.Equal(rawPub(sk.GetPublic()), rawPub(pk))) {
+				c.Failf("parsekeypem-public-differs", desc, "ParseKeyPem public key is not the private key's public key")
+			}
+		}
+		c.Case(hx.App("KeyPem", hx.Bytes(dat), pr, o), desc)
+	}
+	// ParsePrivKeyPem
+	{
+		var sk crypto.PrivKey
+		var err error
+		p, _ := hx.Catch(func() { sk, err = keypem.ParsePrivKeyPem(dat) })
+		if p {
+			c.Failf("parseprivkeypem-panic", desc, "ParsePrivKeyPem panicked")
+		} else if err == nil && sk == nil {
+			c.Failf("keypem-no-key-no-error", desc, "ParsePrivKeyPem returned neither a key nor an error")
+		}
+		c.Case(hx.App("PrivPem", hx.Bytes(dat), pr, obsOptKey(p, sk != nil, rawPriv(sk), err)), desc)
+	}
+	// ParsePubKeyPem
+	{
+		var pk crypto.PubKey
+		var err error
+		p, _ := hx.Catch(func() { pk, err = keypem.ParsePubKeyPem(dat) })
+		if p {
+			c.Failf("parsepubkeypem-panic", desc, "ParsePubKeyPem panicked")
+		} else if err == nil && pk == nil {
+			c.Failf("keypem-no-key-no-error", desc, "ParsePubKeyPem returned neither a key nor an error")
+		}
+		c.Case(hx.App("PubPem", hx.Bytes(dat), pr, obsOptKey(p, pk != nil, rawPub(pk), err)), desc)
+	}
+	// confparse PEM variants: nil,nil is the documented answer for an empty field only
+	{
+		var sk crypto.PrivKey
+		var err error
+		p, _ := hx.Catch(func() { sk, err = confparse.ParsePrivateKeyPEM(dat) })
+		if p {
+			c.Failf("confparse-pem-panic", desc, "ParsePrivateKeyPEM panicked")
+		} else if err == nil && sk == nil && len(dat) != 0 {
+			c.Failf("confparse-no-key-no-error", desc, "ParsePrivateKeyPEM returned neither a key nor an error for a non-empty field")
+		}
+		c.Case(hx.App("ConfPrivPem", hx.Bytes(dat), pr, obsOptKey(p, sk != nil, rawPriv(sk), err)), desc)
+		var pk crypto.PubKey
+		p, _ = hx.Catch(func() { pk, err = confparse.ParsePublicKeyPEM(dat) })
+		if p {
+			c.Failf("confparse-pem-panic", desc, "ParsePublicKeyPEM panicked")
+		} else if err == nil && pk == nil && len(dat) != 0 {
+			c.Failf("confparse-no-key-no-error", desc, "ParsePublicKeyPEM returned neither a key nor an error for a non-empty field")
+		}
+		c.Case(hx.App("ConfPubPem", hx.Bytes(dat), pr, obsOptKey(p, pk != nil, rawPub(pk), err)), desc)
+	}
+}
+
+// confparse.ParsePrivateKey / ParsePublicKey on a configuration string.
+func c11Conf(c *hx.Ctx, s string, class string) (crypto.PrivKey, crypto.PubKey) {
+	c.Class(class)
+	desc := map[string]any{"kind": "conf", "class": class, "text": s, "hex": hx.Hex([]byte(s))}
+	t := strings.TrimSpace(s)
+	c.Case(hx.App("Trim", hx.Str(s), hx.Str(t)), desc)
+	pr := pemRes([]byte(t))
+	var sk crypto.PrivKey
+	var err error
+	p, _ := hx.Catch(func() { sk, err = confparse.ParsePrivateKey(s) })
+	if p {
+		c.Failf("confparse-panic", desc, "ParsePrivateKey panicked")
+	} else if err == nil && sk == nil && t != "" {
+		c.Failf("confparse-no-key-no-error", desc, "ParsePrivateKey returned neither a key nor an error for a non-blank field")
+	}
+	cl := keyErrClass(err)
+	c.Case(hx.App("ConfPriv", hx.Str(s), pr, obsOptKey(p, sk != nil, rawPriv(sk), err)), desc)
+	var pk crypto.PubKey
+	var perr error
+	p, _ = hx.Catch(func() { pk, perr = confparse.ParsePublicKey(s) })
+	if p {
+		c.Failf("confparse-panic", desc, "ParsePublicKey panicked")
+	} else if perr == nil && pk == nil && t != "" {
+		c.Failf("confparse-no-key-no-error", desc, "ParsePublicKey returned neither a key nor an error for a non-blank field")
+	}
+	_ = cl
+	c.Case(hx.App("ConfPub", hx.Str(s), pr, obsOptKey(p, pk != nil, rawPub(pk), perr)), desc)
+	return sk, pk
+}
+
+func c11EdPriv(c *hx.Ctx, d []byte, class string) {
+	c.Class(class)
+	desc := map[string]any{"kind": "ed25519-priv", "class": class, "bytes": hx.Hex(d)}
+	var sk crypto.PrivKey
+	var err error
+	p, _ := hx.Catch(func() { sk, err = crypto.UnmarshalEd25519PrivateKey(d) })
+	c.Case(hx.App("UnmarshalEdPriv", hx.Bytes(d), obsBytes(p, rawPriv(sk), err, 0)), desc)
+	if p {
+		c.Failf("unmarshaled25519-panic", desc, "UnmarshalEd25519PrivateKey panicked")
+		return
+	}
+	want := len(d) == 64 || (len(d) == 96 && bytes.Equal(d[32:64], d[64:]))
+	if (err == nil) != want {
+		c.Failf("ed25519-accept-differs", desc, "accepted=%v, expected %v (64 bytes, or 96 bytes with equal redundant key)", err == nil, want)
+	}
+	if err == nil {
+		c.Nontrivial("ed" + hx.Hex(d))
+		if !bytes.Equal(rawPriv(sk), d[:64]) {
+			c.Failf("ed25519-key-changed", desc, "decoded key differs from the first 64 bytes")
+		}
+		var pub []byte
+		p, _ = hx.Catch(func() { pub = rawPub(sk.GetPublic()) })
+		c.Case(hx.App("GetPublic", hx.Bytes(rawPriv(sk)), obsBytes(p, pub, nil, 0)), desc)
+		if p {
+			c.Failf("getpublic-panic", desc, "GetPublic panicked")
+		} else if !bytes.Equal(pub, d[32:64]) {
+			c.Failf("decoded-key-different-public", desc, "GetPublic of the decoded key is not bytes 32..64")
+		}
+	}
+}
+
+func c11(c *hx.Ctx) {
+	c.Type = "c11_case"
+	c.Agree = "c11_agree"
+	c.Rule = "generated Ed25519 keys through protobuf, PEM and base58 configuration strings (with ASCII and Unicode white space), the 96-byte libp2p form, std-key and base64 wrappers; malformed: raw lengths 0..128, mismatched redundant key, protobuf irregularities, wrong key types, wrong/garbage/truncated/multiple PEM blocks, non-base58 and blank text; non-trivial = distinct key that round-trips or raw form that is accepted"
+	type kp struct {
+		raw, pub   []byte
+		privPem    []byte
+		pubPem     []byte
+		privB58    string
+		pubB58     string
+		sk         crypto.PrivKey
+		pk         crypto.PubKey
+		marshalled []byte
+	}
+	var keys []kp
+	spaces := []string{" ", "\n", "\t", "\r\n", "\v\f", " ", " ", "\u0085", "　", " ", "   "}
+	nValid := c.N / 6
+	if nValid < 4 {
+		nValid = 4
+	}
+	for i := 0; i < nValid; i++ {
+		seed := c.RandBytes(32)
+		if i == 0 {
+			seed = make([]byte, 32)
+		}
+		std := ed25519.NewKeyFromSeed(seed)
+		sk, pk, err := crypto.KeyPairFromStdKey(std)
+		desc := map[string]any{"kind": "valid-key", "seed": hx.Hex(seed)}
+		if err != nil {
+			c.Failf("keypairfromstdkey-error", desc, "%v", err)
+			continue
+		}
+		c.Class("valid-key")
+		raw, pub := rawPriv(sk), rawPub(pk)
+		desc["raw"] = hx.Hex(raw)
+		c.Nontrivial("key" + hx.Hex(raw))
+		id, _ := peer.IDFromPrivateKey(sk)
+		same := func(what string, k2 crypto.PrivKey, err error) {
+			if err != nil || k2 == nil {
+				c.Failf(what, desc, "decode failed: %v", err)
+				return
+			}
+			if !k2.Equals(sk) || !bytes.Equal(rawPriv(k2), raw) {
+				c.Failf(what, desc, "decoded private key differs: %x", rawPriv(k2))
+			}
+			if !bytes.Equal(rawPub(k2.GetPublic()), pub) || !k2.GetPublic().Equals(pk) {
+				c.Failf("decoded-key-different-public", desc, "%s: public key differs", what)
+			}
+			if id2, _ := peer.IDFromPrivateKey(k2); id2 != id {
+				c.Failf("decoded-key-different-id", desc, "%s: peer id differs", what)
+			}
+		}
+		samePub := func(what string, p2 crypto.PubKey, err error) {
+			if err != nil || p2 == nil {
+				c.Failf(what, desc, "decode failed: %v", err)
+				return
+			}
+			if !p2.Equals(pk) || !bytes.Equal(rawPub(p2), pub) {
+				c.Failf(what, desc, "decoded public key differs: %x", rawPub(p2))
+			}
+			if id2, _ := peer.IDFromPublicKey(p2); id2 != id {
+				c.Failf("decoded-key-different-id", desc, "%s: peer id differs", what)
+			}
+		}
+		// protobuf
+		m, _ := crypto.MarshalPrivateKey(sk)
+		c.Case(hx.App("MarshalPriv", hx.Bytes(raw), hx.Bytes(m)), desc)
+		k2, err := crypto.UnmarshalPrivateKey(m)
+		c.Case(hx.App("UnmarshalPriv", hx.Bytes(m), obsBytes(false, rawPriv(k2), err, keyErrClass(err))), desc)
+		same("proto-roundtrip-priv", k2, err)
+		mp, _ := crypto.MarshalPublicKey(pk)
+		p2, err := crypto.UnmarshalPublicKey(mp)
+		samePub("proto-roundtrip-pub", p2, err)
+		c.Case(hx.App("GetPublic", hx.Bytes(raw), obsBytes(false, rawPub(sk.GetPublic()), nil, 0)), desc)
+		// 96-byte libp2p form
+		m96 := cat(pbVarint(1, 1), pbBytes(2, cat(raw, pub)))
+		k3, err := crypto.UnmarshalPrivateKey(m96)
+		c.Case(hx.App("UnmarshalPriv", hx.Bytes(m96), obsBytes(false, rawPriv(k3), err, keyErrClass(err))), desc)
+		same("proto-96-form", k3, err)
+		// PEM
+		privPem, _ := keypem.MarshalPrivKeyPem(sk)
+		pubPem, _ := keypem.MarshalPubKeyPem(pk)
+		if blk, _ := pem.Decode(privPem); blk != nil {
+			c.Case(hx.App("PemOut", "true", hx.Bytes(raw), hx.Str(blk.Type), hx.Bytes(blk.Bytes)), desc)
+		} else {
+			c.Failf("pem-output-undecodable", desc, "MarshalPrivKeyPem output has no PEM block")
+		}
+		if blk, _ := pem.Decode(pubPem); blk != nil {
+			c.Case(hx.App("PemOut", "false", hx.Bytes(pub), hx.Str(blk.Type), hx.Bytes(blk.Bytes)), desc)
+		} else {
+			c.Failf("pem-output-undecodable", desc, "MarshalPubKeyPem output has no PEM block")
+		}
+		// oracle laws of the PEM library used by the theorems (sampled)
+		if !bytes.HasPrefix(privPem, []byte("-----BEGIN")) || !bytes.HasPrefix(pubPem, []byte("-----BEGIN")) {
+			c.Failf("pem-law-prefix", desc, "PEM output does not start with -----BEGIN")
+		}
+		if blk, _ := pem.Decode([]byte(strings.TrimSpace(string(privPem)))); blk == nil || blk.Type != keypem.PrivPemType || !bytes.Equal(blk.Bytes, m) {
+			c.Failf("pem-law-trimmed", desc, "pem.Decode(TrimSpace(pem.Encode(t,b))) != (t,b)")
+		}
+		k4, err := keypem.ParsePrivKeyPem(privPem)
+		same("pem-roundtrip-priv", k4, err)
+		k5, p5, err := keypem.ParseKeyPem(privPem)
+		same("pem-roundtrip-priv", k5, err)
+		samePub("pem-roundtrip-priv-public", p5, err)
+		p6, err := keypem.ParsePubKeyPem(pubPem)
+		samePub("pem-roundtrip-pub", p6, err)
+		p7, err := keypem.ParsePubKeyPem(privPem)
+		samePub("pem-pub-of-priv", p7, err)
+		if kx, err := keypem.ParsePrivKeyPem(pubPem); err == nil {
+			c.Failf("pem-wrong-type-accepted", desc, "ParsePrivKeyPem accepted a public key PEM (key nil=%v)", kx == nil)
+		}
+		c11Pem(c, privPem, "pem-valid-priv")
+		c11Pem(c, pubPem, "pem-valid-pub")
+		k8, err := confparse.ParsePrivateKeyPEM(privPem)
+		same("confparse-pem-roundtrip-priv", k8, err)
+		p8, err := confparse.ParsePublicKeyPEM(pubPem)
+		samePub("confparse-pem-roundtrip-pub", p8, err)
+		// base58 configuration strings
+		s, _ := confparse.MarshalPrivateKey(sk)
+		ps, _ := confparse.MarshalPublicKey(pk)
+		c.Case(hx.App("ConfMarshal", "true", hx.Bytes(raw), hx.Str(s)), desc)
+		c.Case(hx.App("ConfMarshal", "false", hx.Bytes(pub), hx.Str(ps)), desc)
+		k9, _ := c11Conf(c, s, "conf-b58-priv")
+		same("b58-roundtrip-priv", k9, nil)
+		_, p9 := c11Conf(c, ps, "conf-b58-pub")
+		samePub("b58-roundtrip-pub", p9, nil)
+		sp1, sp2 := spaces[c.Rng.Intn(len(spaces))], spaces[c.Rng.Intn(len(spaces))]
+		k10, _ := c11Conf(c, sp1+s+sp2, "conf-b58-priv-spaces")
+		same("b58-roundtrip-priv", k10, nil)
+		k11, p11 := c11Conf(c, string(privPem), "conf-pem-priv")
+		same("conf-pem-roundtrip-priv", k11, nil)
+		samePub("conf-pem-pub-of-priv", p11, nil)
+		_, p12 := c11Conf(c, sp1+string(pubPem)+sp2, "conf-pem-pub-spaces")
+		samePub("conf-pem-roundtrip-pub", p12, nil)
+		// std keys and base64
+		stdk, err := crypto.PrivKeyToStdKey(sk)
+		if sp, ok := stdk.(*ed25519.PrivateKey); err != nil || !ok || !bytes.Equal(*sp, raw) {
+			c.Failf("stdkey-roundtrip", desc, "PrivKeyToStdKey: %v", err)
+		} else {
+			k12, _, err := crypto.KeyPairFromStdKey(sp)
+			same("stdkey-roundtrip", k12, err)
+		}
+		if sp, err := crypto.PubKeyToStdKey(pk); err != nil || !bytes.Equal(sp.(ed25519.PublicKey), pub) {
+			c.Failf("stdkey-roundtrip", desc, "PubKeyToStdKey: %v", err)
+		}
+		if d, err := crypto.ConfigDecodeKey(crypto.ConfigEncodeKey(m)); err != nil || !bytes.Equal(d, m) {
+			c.Failf("base64-roundtrip", desc, "ConfigDecodeKey(ConfigEncodeKey(m)) != m")
+		}
+		c.Eval()
+		keys = append(keys, kp{raw: raw, pub: pub, privPem: privPem, pubPem: pubPem, privB58: s, pubB58: ps, sk: sk, pk: pk, marshalled: m})
+	}
+	// nil std keys: error, not panic
+	for _, f := range []func() error{
+		func() error { _, _, e := crypto.KeyPairFromStdKey(nil); return e },
+		func() error { _, e := crypto.PrivKeyToStdKey(nil); return e },
+		func() error { _, e := crypto.PubKeyToStdKey(nil); return e },
+		func() error { _, _, e := crypto.KeyPairFromStdKey("not a key"); return e },
+	} {
+		var err error
+		p, _ := hx.Catch(func() { err = f() })
+		c.Eval()
+		if p || err == nil {
+			c.Failf("stdkey-nil", map[string]any{"kind": "std-nil"}, "nil/foreign std key: panic=%v err=%v", p, err)
+		}
+	}
+
+	rest := c.N - nValid
+	for i := 0; i < rest; i++ {
+		k := keys[c.Rng.Intn(len(keys))]
+		switch c.Rng.Intn(8) {
+		case 0: // raw private key lengths
+			n := []int{0, 1, 31, 32, 33, 63, 64, 65, 95, 96, 97, 128}[c.Rng.Intn(12)]
+			d := cat(k.raw, k.pub, c.RandBytes(32))[:n]
+			c11EdPriv(c, d, "ed-length")
+		case 1: // 96 bytes: equal / mismatched redundant key
+			d := cat(k.raw, k.pub)
+			class := "ed-96-equal"
+			if c.Rng.Intn(3) != 0 {
+				d[32+c.Rng.Intn(64)] ^= 1 << uint(c.Rng.Intn(8))
+				class = "ed-96-mismatch"
+			}
+			c11EdPriv(c, d, class)
+		case 2: // 64 bytes whose public half is not derived from the seed: still a key with that public half
+			d := cat(c.RandBytes(32), c.RandBytes(32))
+			c11EdPriv(c, d, "ed-64-arbitrary")
+		case 3: // protobuf irregularities
+			ty := uint64(1)
+			if c.Rng.Intn(4) == 0 {
+				ty = []uint64{0, 2, 3, 1 << 32, 1<<32 + 1}[c.Rng.Intn(5)]
+			}
+			data := k.raw
+			switch c.Rng.Intn(6) {
+			case 0:
+				data = cat(k.raw, k.pub)
+			case 1:
+				data = k.raw[:c.Rng.Intn(64)]
+			case 2:
+				data = cat(k.raw, c.RandBytes(32))
+			}
+			pb, pc := randProto(c, ty, data)
+			c.Class("priv-" + pc)
+			desc := map[string]any{"kind": "unmarshal-priv", "class": pc, "bytes": hx.Hex(pb)}
+			var sk crypto.PrivKey
+			var err error
+			p, _ := hx.Catch(func() { sk, err = crypto.UnmarshalPrivateKey(pb) })
+			c.Case(hx.App("UnmarshalPriv", hx.Bytes(pb), obsBytes(p, rawPriv(sk), err, keyErrClass(err))), desc)
+			if p {
+				c.Failf("unmarshalprivatekey-panic", desc, "UnmarshalPrivateKey panicked")
+			} else if err == nil && sk == nil {
+				c.Failf("unmarshal-no-key-no-error", desc, "UnmarshalPrivateKey returned neither a key nor an error")
+			}
+			if c.Rng.Intn(2) == 0 {
+				c11Conf(c, b58.Encode(pb), "conf-b58-of-"+pc)
+			}
+		case 4: // PEM irregularities
+			var dat []byte
+			var class string
+			switch c.Rng.Intn(10) {
+			case 0:
+				dat, class = pem.EncodeToMemory(&pem.Block{Type: "RSA PRIVATE KEY", Bytes: k.marshalled}), "pem-wrong-type"
+			case 1:
+				dat, class = pem.EncodeToMemory(&pem.Block{Type: keypem.PrivPemType, Bytes: c.RandBytes(c.Rng.Intn(40))}), "pem-garbage-body"
+			case 2:
+				dat, class = pem.EncodeToMemory(&pem.Block{Type: keypem.PubPemType, Bytes: k.marshalled}), "pem-priv-body-in-pub-type"
+			case 3:
+				dat, class = k.privPem[:c.Rng.Intn(len(k.privPem))], "pem-truncated"
+			case 4:
+				dat, class = []byte("garbage"), "pem-no-block"
+			case 5:
+				dat, class = nil, "pem-empty"
+			case 6:
+				dat, class = cat([]byte("some text\n"), k.pubPem, k.privPem), "pem-two-blocks"
+			case 7:
+				dat, class = pem.EncodeToMemory(&pem.Block{Type: keypem.PrivPemType, Headers: map[string]string{"Proc-Type": "4,ENCRYPTED"}, Bytes: k.marshalled}), "pem-with-headers"
+			case 8:
+				dat, class = pem.EncodeToMemory(&pem.Block{Type: strings.ToLower(keypem.PrivPemType), Bytes: k.marshalled}), "pem-type-case"
+			default:
+				dat, class = c.RandBytes(c.Rng.Intn(30)), "pem-random-bytes"
+			}
+			c11Pem(c, dat, class)
+			if c.Rng.Intn(2) == 0 {
+				c11Conf(c, string(dat), "conf-"+class)
+			}
+		case 5: // configuration strings that are not keys
+			s := []string{"", " ", "\n\t ", " ", " 　", "0OIl", "not base58!", "-----BEGIN", "-----BEGIN garbage-----",
+				k.privB58 + "0", k.privB58[:len(k.privB58)/2], "\xc2", "\xe2\x80", "a\xc2\x85", "\x85", k.pubB58 + "\xe2\x80\x80\x80",
+				"\xe2\x80\xa8" + k.pubB58 + "\xe1\x9a\x80", "é" + k.pubB58, k.privB58 + " x"}[c.Rng.Intn(19)]
+			c11Conf(c, s, "conf-not-a-key")
+		case 6: // public key string where a private one is expected and vice versa
+			if c.Rng.Intn(2) == 0 {
+				c11Conf(c, k.pubB58, "conf-pub-as-priv")
+			} else {
+				c11Conf(c, string(k.pubPem), "conf-pubpem-as-priv")
+			}
+		default: // base58 of random bytes
+			c11Conf(c, b58.Encode(c.RandBytes(1+c.Rng.Intn(70))), "conf-b58-random")
+		}
+	}
+}
